@@ -817,6 +817,17 @@ impl<B: ScopedBitRead> UperReader<B> {
         self.bits.remaining()
     }
 
+    /// Fails unless `count` items of `bits_per_item` bits each are still available, so that no
+    /// buffer is allocated for an announced length the input cannot possibly hold.
+    #[inline]
+    fn ensure_remaining(&self, count: u64, bits_per_item: u64) -> Result<(), Error> {
+        if count.saturating_mul(bits_per_item) > self.bits.remaining() as u64 {
+            Err(Error::insufficient_data_in_source_buffer())
+        } else {
+            Ok(())
+        }
+    }
+
     #[inline]
     pub fn scope_pushed<T, F: FnOnce(&mut Self) -> Result<T, Error>>(
         &mut self,
@@ -1023,7 +1034,8 @@ impl<B: ScopedBitRead> Reader for UperReader<B> {
 
             if len > 0 {
                 r.scope_stashed(|r| {
-                    let mut vec = Vec::with_capacity(len as usize);
+                    // an announced count the input cannot hold must not size the allocation
+                    let mut vec = Vec::with_capacity((len as usize).min(r.bits.remaining()));
                     for _ in 0..len {
                         vec.push(T::read_value(r)?);
                     }
@@ -1225,6 +1237,7 @@ impl<B: ScopedBitRead> Reader for UperReader<B> {
                 r.read_length_determinant(C::MIN, C::MAX)?
             };
 
+            r.ensure_remaining(len, 7)?;
             let mut buffer = vec![0u8; len as usize];
             for i in 0..len as usize {
                 r.bits.read_bits_with_offset(&mut buffer[i..i + 1], 1)?;
@@ -1255,6 +1268,7 @@ impl<B: ScopedBitRead> Reader for UperReader<B> {
                 r.read_length_determinant(C::MIN, C::MAX)?
             };
 
+            r.ensure_remaining(len, 4)?;
             let mut buffer = vec![0u8; len as usize];
             for i in 0..len as usize {
                 r.bits.read_bits_with_offset(&mut buffer[i..i + 1], 4)?;
@@ -1291,6 +1305,7 @@ impl<B: ScopedBitRead> Reader for UperReader<B> {
                 r.read_length_determinant(C::MIN, C::MAX)?
             };
 
+            r.ensure_remaining(len, 7)?;
             let mut buffer = vec![0u8; len as usize];
             buffer
                 .chunks_exact_mut(1)
@@ -1321,6 +1336,7 @@ impl<B: ScopedBitRead> Reader for UperReader<B> {
                 r.read_length_determinant(C::MIN, C::MAX)?
             };
 
+            r.ensure_remaining(len, 7)?;
             let mut buffer = vec![0u8; len as usize];
             buffer
                 .chunks_exact_mut(1)
